@@ -9,6 +9,9 @@ Case (JSON):
   take       None | int            (never with src=xy: the (X,Y) overload has no take)
   label_col  int | str | None
   header / types / sparse / rows   the data (cells are tagged values, see dec())
+  dialect    csv only: csv dialect keywords given to CsvSource (delimiter='\t' ...); eol: line terminator kept on IterableSource lines
+  pre        rows/arff only: {"tipe": t}: the source is already labelled (Pipes.join(source, LabelRows(label_col, t)), as
+             OpenML sources are) and handed over with label_col=None; an explicit label_type must win over t
   edge       True = outside the property's quantifier (only the correspondence (A) applies)
 
 Checks: (B) the statement itself on what the real code returned (two reads, plus the same data in
@@ -217,6 +220,8 @@ def label_type_in_force(case, exs):
         return lt.lower()
     if not exs:
         return None
+    if case.get("pre") and case["pre"].get("tipe"):
+        return case["pre"]["tipe"].lower()      # no explicit type: the type the labelled source attached
     y = exs[0][1]
     return "r" if isinstance(y, (int, float)) else "c"
 
@@ -228,7 +233,7 @@ def fmt_num(v):
 
 def csv_text(case):
     buf = io.StringIO()
-    w = csv.writer(buf, lineterminator="\n")
+    w = csv.writer(buf, lineterminator="\n", **(case.get("dialect") or {}))
     if case.get("header"):
         w.writerow(case["header"])
     for r in case["rows"]:
@@ -294,9 +299,9 @@ def build_env(case, tmp):
                 f.write("\n".join(lines) + "\n")
             inner = path
         else:
-            inner = IterableSource(lines)
+            inner = IterableSource([l + case["eol"] for l in lines] if case.get("eol") else lines)
         if src == "csv":
-            source = CsvSource(inner, has_header=bool(case.get("header")))
+            source = CsvSource(inner, has_header=bool(case.get("header")), **(case.get("dialect") or {}))
         elif src in ("arff", "sarff"):
             source = ArffSource(inner)
         elif src == "libsvm":
@@ -304,6 +309,10 @@ def build_env(case, tmp):
         else:
             source = ManikSource(inner)
         lc = case.get("label_col")
+    if case.get("pre") is not None:
+        from coba.pipes import Pipes, LabelRows
+        source = Pipes.join(source, LabelRows(lc, case["pre"].get("tipe")))
+        lc = None
     take = case.get("take")
     if case.get("kw"):
         kw = {"source": source}
@@ -625,8 +634,13 @@ def short(x):
 
 
 def describe(case):
-    return "src=%s n=%d label_type=%r label_col=%r take=%r via=%s" % (case["src"], len(case["rows"]), case.get("label_type"),
-                                                                       case.get("label_col"), case.get("take"), case.get("via", "sim"))
+    extra = ""
+    if case.get("pre") is not None:
+        extra += " pre-labelled tipe=%r" % case["pre"].get("tipe")
+    if case.get("dialect"):
+        extra += " dialect=%r" % case["dialect"]
+    return "src=%s n=%d label_type=%r label_col=%r take=%r via=%s%s" % (case["src"], len(case["rows"]), case.get("label_type"),
+                                                                         case.get("label_col"), case.get("take"), case.get("via", "sim"), extra)
 
 
 # ------------------------------------------------------------------ the Lean model's view
@@ -636,7 +650,8 @@ def model_request(case, probes):
     exs_all = examples(case)
     take = case.get("take")
     idxs = reservoir_positions(take, len(exs_all)) if take is not None and src != "xy" else None
-    req = {"given": lt.lower() if lt else None, "take": idxs, "probes": [probe_json(p) for p in probes]}
+    tipe = (case.get("pre") or {}).get("tipe")
+    req = {"given": lt.lower() if lt else None, "tipe": tipe.lower() if tipe else None, "take": idxs, "probes": [probe_json(p) for p in probes]}
     dense = src in ("csv", "arff") or (src == "rows" and not case.get("sparse"))
     if dense:
         rows = []
@@ -951,7 +966,7 @@ class Gen:
             width = r.randint(1, 4)         # number of feature columns
             li = r.randint(0, width)
             labs, lt, kind = self.label_setup(STR_POOL, n)
-            if r.chance(0.15) and n:
+            if r.chance(0.25) and n:
                 uni = [cs(s) for s in self.universe(STR_POOL, 4)]
                 labs, lt = [{"l": r.shuffle(r.subset(uni, 0.6)) or [uni[0]]} for _ in range(n)], "m"
             rows = []
@@ -960,6 +975,8 @@ class Gen:
                 cells.insert(li, y)
                 rows.append(cells)
             case.update(sparse=False, rows=rows, label_col=li if r.chance(0.75) else li - (width + 1), label_type=lt)
+            if r.chance(0.3):
+                self.prelabel(case, "list" if lt == "m" else "str" if kind == "str" else "num")
         else:
             intkeys = r.chance(0.4)
             keys = [ci(k) for k in (1, 2, 3, 5)] if intkeys else [cs(k) for k in ("a", "b", "c", "d")]
@@ -973,6 +990,8 @@ class Gen:
                     row.insert(r.randint(0, len(row)), [key, y])
                 rows.append(row)
             case.update(sparse=True, rows=rows, label_col=key, label_type=lt)
+            if r.chance(0.25):
+                self.prelabel(case, "str" if kind == "str" else "num")
         return case
 
     # ---- text sources
@@ -981,18 +1000,46 @@ class Gen:
         n = self.n_rows(1)
         width = r.randint(1, 4)
         li = r.randint(0, width)
-        names = r.sample(["f1", "f2", "f3", "f4", "y", "label", "class x"], width + 1)
-        labs = self.labels_from([cs(s) for s in self.universe(CSV_POOL)], n)
+        ws = r.chance(0.5)            # white space at the edge of a field and empty fields are data
+        names = r.sample(["f1", "f2", "f3", "f4", "y", "label", "class x"] + ([" y", "f5 "] if ws else []), width + 1)
+        lpool = CSV_POOL + ([" a", "a ", " 10", "b  ", "  ", ""] if ws else [])
+        fpool = CSV_POOL + ["1", "2.5", "-3"] + ([" a", "a ", "", "", "", " "] if ws else [])
+        labs = self.labels_from([cs(s) for s in self.universe(lpool)], n)
         rows = []
         for y in labs:
-            cells = [cs(r.choice(CSV_POOL + ["1", "2.5", "-3"])) for _ in range(width)]
+            cells = [cs(r.choice(fpool)) for _ in range(width)]
             cells.insert(li, y)
             rows.append(cells)
         header = names if r.chance(0.6) else None
         m = r.below(10)
         lc = names[li] if header and m < 5 else (li if m < 9 else li - (width + 1))
-        return {"src": "csv", "via": r.choice(["sim", "sim", "env"]), "kw": r.chance(0.4), "file": r.chance(0.25), "header": header, "rows": rows,
+        case = {"src": "csv", "via": r.choice(["sim", "sim", "env"]), "kw": r.chance(0.4), "file": r.chance(0.25), "header": header, "rows": rows,
                 "label_col": lc, "label_type": r.choice([None, None, "c", "C"]), "take": self.take_for(n)}
+        if r.chance(0.4):
+            case["dialect"] = {"delimiter": "\t"}
+        if not case["file"] and r.chance(0.4):
+            case["eol"] = r.choice(["\n", "\r\n"])
+        return case
+
+    def prelabel(self, case, kind):
+        """turn a rows/arff case into an already labelled source (rows carry label/feats/tipe, as OpenML sources
+        deliver them) that is passed with label_col=None; kind: num | str | list"""
+        r = self.r
+        if kind == "num":
+            tipe, given = r.choice([("r", "c"), ("r", "c"), ("c", "r"), ("c", "r"), ("r", None), ("c", None), ("r", "r"), ("c", "c"),
+                                    (None, "c"), (None, None), ("R", "c"), ("c", "R"), ("C", None)])
+        elif kind == "str":
+            tipe, given = r.choice([("c", None), ("c", "c"), (None, None), ("c", "C"), ("r", "c"), ("m", "c"), (None, "c")])
+        else:
+            tipe, given = r.choice([("c", "m"), ("c", "m"), ("m", None), ("m", "m"), (None, "m"), ("r", "m"), ("m", "c"), ("c", None)])
+            if given == "c" or (given is None and tipe == "c"):
+                # classification over list-valued labels: one-element lists
+                li = norm_index(label_index(case), len(case["rows"][0])) if case["rows"] else 0
+                for row in case["rows"]:
+                    row[li] = {"l": row[li]["l"][:1]}
+        case["pre"] = {"tipe": tipe}
+        case["label_type"] = given
+        return case
 
     def arff(self, tier):
         r = self.r
@@ -1037,8 +1084,11 @@ class Gen:
             rows.append(cells)
         m = r.below(10)
         lc = names[li] if m < 5 else (li if m < 9 else li - (width + 1))
-        return {"src": "arff", "via": r.choice(["sim", "sim", "env"]), "kw": r.chance(0.4), "file": r.chance(0.25), "header": names, "types": types,
+        case = {"src": "arff", "via": r.choice(["sim", "sim", "env"]), "kw": r.chance(0.4), "file": r.chance(0.25), "header": names, "types": types,
                 "rows": rows, "label_col": lc, "label_type": lt, "take": self.take_for(n)}
+        if r.chance(0.3):
+            self.prelabel(case, "num" if lt_kind in ("numc", "reg") else "str")
+        return case
 
     def sarff(self, tier):
         r = self.r
@@ -1148,8 +1198,16 @@ def snippet_for(case):
             lines.append("lines = %r" % (text,))
             cls = {"csv": "CsvSource", "arff": "ArffSource", "sarff": "ArffSource", "libsvm": "LibSvmSource", "manik": "ManikSource"}[src]
             extra = ", has_header=%r" % bool(case.get("header")) if src == "csv" else ""
+            if src == "csv":
+                extra += "".join(", %s=%r" % kv for kv in sorted((case.get("dialect") or {}).items()))
+            if case.get("eol"):
+                lines[-1] = "lines = %r" % ([l + case["eol"] for l in text],)
             lines.append("source = %s(IterableSource(lines)%s)" % (cls, extra))
             lc = case.get("label_col")
+        if case.get("pre") is not None:
+            lines.append("from coba.pipes import Pipes, LabelRows")
+            lines.append("source = Pipes.join(source, LabelRows(%r, %r))   # an already labelled source" % (lc, case["pre"].get("tipe")))
+            lc = None
         if case.get("kw"):
             args = "source=source" + "".join(", %s=%r" % (k, v) for k, v in (("label_col", lc), ("label_type", lt), ("take", case.get("take"))) if v is not None)
         else:
@@ -1245,6 +1303,25 @@ class C14(Property):
                         rows=[{"labels": ["0", "1"], "feats": [[1, ci(2)]]}, {"labels": ["1"], "feats": [[1, ci(1)]]}, {"labels": ["2", "0"], "feats": [[2, ci(1)]]}]))
         cs_.append(dict(base, src="manik", label_col=None, label_type="m", take=2, file=True,
                         rows=[{"labels": ["ab", "b"], "feats": [[1, ci(2)]]}, {"labels": ["b"], "feats": [[1, ci(1)]]}, {"labels": ["ab"], "feats": [[2, ci(1)]]}]))
+        # CSV where white space at the edge of a line is data (tab separated with an empty first/last field; ' a' vs 'a')
+        cs_.append(dict(base, src="csv", header=["y", "f1", "f2"], label_col=0, label_type="c", take=None, file=False, dialect={"delimiter": "\t"}, eol="\n",
+                        rows=[[cs("a"), cs("1"), cs("5")], [cs("b"), cs("2"), cs("")], [cs("a"), cs("3"), cs("7")], [cs("c"), cs("4"), cs("")]]))
+        cs_.append(dict(base, src="csv", header=None, label_col=2, label_type="c", take=None, file=False, dialect={"delimiter": "\t"},
+                        rows=[[cs(""), cs("5"), cs("a")], [cs("1"), cs("6"), cs("b")], [cs(""), cs("7"), cs("b")]]))
+        cs_.append(dict(base, src="csv", header=None, label_col=0, label_type=None, take=None, file=False,
+                        rows=[[cs(" a"), cs("1")], [cs("a"), cs("2")], [cs(" a"), cs("3")]]))
+        cs_.append(dict(base, src="csv", header=None, label_col=-1, label_type=None, take=None, file=True,
+                        rows=[[cs("1"), cs("a ")], [cs("2"), cs("a")], [cs("3"), cs("")]]))
+        # already labelled sources: the explicit label_type wins over the rows' own tipe; without one the tipe decides
+        num_rows = [[ci(1), ci(2), ci(3)], [ci(4), ci(5), ci(1)], [ci(7), ci(8), ci(3)], [ci(9), ci(9), ci(2)]]
+        for tipe, given in (("r", "c"), ("c", "r"), ("c", None), ("r", None), (None, "c")):
+            cs_.append(dict(base, src="rows", sparse=False, label_col=2, label_type=given, take=None, pre={"tipe": tipe}, rows=num_rows))
+        cs_.append(dict(base, src="arff", header=["a", "b", "y"], types=["num", "num", "num"], label_col="y", label_type="c", take=None, file=False, pre={"tipe": "r"}, rows=num_rows))
+        cs_.append(dict(base, src="arff", header=["a", "b", "y"], types=["num", "num", "num"], label_col="y", label_type="r", take=2, file=False, pre={"tipe": "c"}, rows=num_rows))
+        cs_.append(dict(base, src="rows", sparse=False, label_col=1, label_type="m", take=None, pre={"tipe": "c"},
+                        rows=[[ci(1), {"l": [cs("x"), cs("y")]}], [ci(2), {"l": [cs("y")]}], [ci(3), {"l": [cs("z"), cs("x")]}]]))
+        cs_.append(dict(base, src="rows", sparse=True, label_col=cs("y"), label_type="c", take=None, pre={"tipe": "r"},
+                        rows=[[[cs("a"), ci(1)], [cs("y"), ci(2)]], [[cs("b"), ci(2)]], [[cs("y"), ci(3)]]]))
         for c in cs_:
             c.setdefault("take", None)
         return cs_
@@ -1326,6 +1403,17 @@ class C14(Property):
             tags.append("edge:" + case.get("edge_kind", "?"))
         if case.get("file"):
             tags.append("file")
+        if case.get("pre") is not None:
+            t, g = case["pre"].get("tipe"), case.get("label_type")
+            tags.append("pre:%s" % ("same" if (t or "").lower() == (g or "").lower() else "tipe-only" if g is None else "given-only" if t is None else "conflict:%s>%s" % (t.lower(), g.lower())))
+        if src == "csv":
+            if (case.get("dialect") or {}).get("delimiter") == "\t":
+                tags.append("csv:tab")
+            allrows = case["rows"] + ([[{"s": h} for h in case["header"]]] if case.get("header") else [])
+            if any(r[0]["s"] == "" or r[-1]["s"] == "" for r in allrows):
+                tags.append("csv:empty-edge-field")
+            if any(r[0]["s"] != r[0]["s"].strip() or r[-1]["s"] != r[-1]["s"].strip() for r in allrows):
+                tags.append("csv:edge-white-space")
         if isinstance(case.get("label_col"), int):
             tags.append("label_col:neg-index" if case["label_col"] < 0 else "label_col:index")
         elif isinstance(case.get("label_col"), str):
